@@ -7,9 +7,13 @@ import time
 
 VERIF = os.path.dirname(os.path.dirname(os.path.dirname(os.path.abspath(__file__))))
 LEAN_DIR = os.path.join(VERIF, "lean")
-DRIVER_BIN = os.path.join(LEAN_DIR, ".lake", "build", "bin", "driver")
+DRIVER_DIR = os.path.join(LEAN_DIR, ".lake", "build", "bin")
 ALLOWED_AXIOMS = {"propext", "Classical.choice", "Quot.sound"}
 FORBIDDEN = re.compile(r"\b(sorry|admit|native_decide|bv_decide|implemented_by|unsafe)\b|^\s*axiom\s|maxHeartbeats\s+0\b", re.M)
+
+
+def driver_bin(prop):
+    return os.path.join(DRIVER_DIR, "drv_" + prop.lower())
 
 
 def _env():
@@ -87,7 +91,7 @@ def grep_forbidden(mods):
 def build(targets, timeout=1500):
     """lake build of the given module targets + driver. Returns (ok, log, seconds)."""
     t0 = time.time()
-    cmd = ["lake", "build"] + list(targets) + ["driver"]
+    cmd = ["lake", "build"] + list(targets)
     try:
         p = subprocess.run(cmd, cwd=LEAN_DIR, env=_env(), stdout=subprocess.PIPE, stderr=subprocess.STDOUT,
                            timeout=timeout, text=True)
@@ -154,20 +158,21 @@ def audit(prop_mods, timeout=900):
 class Driver:
     """One driver subprocess; `ask` is synchronous."""
 
-    def __init__(self):
-        if os.path.exists(DRIVER_BIN):
-            cmd = [DRIVER_BIN]
+    def __init__(self, prop):
+        self.prop = prop
+        binp = driver_bin(prop)
+        if os.path.exists(binp):
+            cmd = [binp]
         else:
-            cmd = ["lake", "env", "lean", "--run", os.path.join("Driver", "Main.lean")]
+            cmd = ["lake", "env", "lean", "--run", os.path.join("Driver", prop + ".lean")]
         self.p = subprocess.Popen(cmd, cwd=LEAN_DIR, env=_env(), stdin=subprocess.PIPE, stdout=subprocess.PIPE,
                                   text=True, bufsize=1)
         self.n = 0
 
-    def ask(self, prop, req):
+    def ask(self, req):
         self.n += 1
         msg = dict(req)
         msg["id"] = self.n
-        msg["prop"] = prop
         self.p.stdin.write(json.dumps(msg, separators=(",", ":")) + "\n")
         self.p.stdin.flush()
         line = self.p.stdout.readline()
